@@ -238,10 +238,13 @@ theorem evalNode_tr (env : Env) (ef : Node → St → Res × St) (hef : EvalTr e
   unfold evalNode
   split
   · split
-    · exact ⟨(TrL.refl s).same (sameExc_hitEdge s n), fun _ _ =>
-        ⟨(sameExc_hitEdge s n).curExc, (sameExc_hitEdge s n).excStack⟩⟩
+    · split
+      · exact ⟨(TrL.refl s).same (sameExc_hitEdge s n), fun _ _ =>
+          ⟨(sameExc_hitEdge s n).curExc, (sameExc_hitEdge s n).excStack⟩⟩
+      · exact key n s
     · exact key n s
-  · exact key n s
+  · -- the cells does not exist: a new exception in the caller's frame, nothing rolled back
+    exact ⟨(TrL.refl s).newExc, fun v hv => by cases hv⟩
 
 theorem drop_of_take_snoc {α} (l a : List α) (x : α) (h : l.take (a.length + 1) = a ++ [x]) :
     l.take a.length = a ∧ l.drop a.length = x :: l.drop (a.length + 1) := by
